@@ -250,13 +250,9 @@ func (vt *Model) cnl(ps int) {
 	if ps == 0 {
 		ps = 1
 	}
-	// Once every line has scrolled out nothing changes anymore
-	if ps > vt.height() {
-		ps = vt.height()
-	}
-	for i := 0; i < ps; i += 1 {
-		vt.nel()
-	}
+	// Like CUD this doesn't scroll
+	vt.cud(ps)
+	vt.cursor.col = vt.margin.left
 }
 
 // Cursor Preceding Line (CPL) CSI Ps F
@@ -266,13 +262,8 @@ func (vt *Model) cpl(ps int) {
 	if ps == 0 {
 		ps = 1
 	}
-	// Once every line has scrolled out nothing changes anymore
-	if ps > vt.height() {
-		ps = vt.height()
-	}
-	for i := 0; i < ps; i += 1 {
-		vt.ri()
-	}
+	// Like CUU this doesn't scroll
+	vt.cuu(ps)
 	vt.cursor.col = vt.margin.left
 }
 
